@@ -8,7 +8,11 @@
 (* observed data ("C18:..", "C19:..", "C20:..") or "NC:.." when the model   *)
 (* cannot explain the step without a property predicate failing.  Exact    *)
 (* agreement of bookkeeping that no property speaks about is only counted  *)
-(* (nonconf).                                                              *)
+(* (nonconf).  Events: reset, tick, vanish, op (a completed request),      *)
+(* iostart / ioend (READ, WRITE, SETATTR or OPEN held in flight), blocked  *)
+(* (a request that waits for the in-flight OPEN of its open-owner; when it *)
+(* completes it is an ordinary op), hang (such a request never woke up),   *)
+(* panic, final.                                                           *)
 (***************************************************************************)
 EXTENDS NFS40, Json, TLCExt
 
@@ -28,7 +32,19 @@ Line == TraceLog[l]
 IsEvent(e) == l <= Len(TraceLog) /\ Line.ev = e /\ l' = l + 1
 Range(q) == {q[i] : i \in 1 .. Len(q)}
 
-NoObs == [leaf |-> << >>, hook |-> [oofs |-> << >>, lofs |-> << >>, pool |-> << >>]]
+NoObs == [leaf |-> << >>, hook |-> [oofs |-> << >>, lofs |-> << >>, pool |-> << >>, oos |-> << >>, los |-> << >>]]
+
+\* A logged request, together with the choice among the outcomes that the
+\* properties leave open (see Blank in NFS40.tla).
+Rq(r, lax, rej) ==
+  [op |-> r.op, fh |-> r.fh, cid |-> r.cid, verf |-> r.verf, cl |-> r.cl, cv |-> r.cv, ok |-> r.ok, lk |-> r.lk,
+   seq |-> r.seq, lseq |-> r.lseq, sk |-> r.sk, st |-> r.st, sq |-> r.sq, share |-> r.share, deny |-> r.deny,
+   how |-> r.how, claim |-> r.claim, name |-> r.name, name2 |-> r.name2, lt |-> r.lt,
+   s |-> r.s, e |-> r.e, lenk |-> r.lenk, newlo |-> r.newlo, gate |-> r.gate, lax |-> lax, rej |-> rej,
+   twin |-> FALSE]
+
+\* A range that is the last byte alone may be refused with any error.
+RejOf(r, rep) == IF LastByteOnly(r) /\ rep.st \notin {"OK", "DENIED", "NONE"} THEN rep.st ELSE ""
 
 -----------------------------------------------------------------------------
 (* Replies.                                                                *)
@@ -45,12 +61,22 @@ OkCached(sp) == {x \in CachedReps(sp, 0) : x.st = "OK"}
 
 \* Which clause of which property a differing reply contradicts.
 \* sp = state before the request, m = model reply, r = real reply.
+ForeignLockOwner(sp, req) ==
+  LET e == Expire(sp) IN
+  /\ req.op = "LOCK" /\ req.newlo /\ req.sk = "reg" /\ req.st \in DOMAIN e.oofs
+  /\ req.cid # e.oofs[req.st].c
+
 Classify(sp, req, m, ctx, r) ==
   IF r = m THEN "ok"
   ELSE IF r.pre # m.pre THEN
          IF m.pre = "OK" /\ req.fh \in DOMAIN sp.held THEN "C18:open-file-not-reachable-by-handle"
          ELSE "NC:file-handle-resolution-differs"
+  ELSE IF ForeignLockOwner(sp, req) /\ r.st = "OK" THEN "C18:open-state-id-honoured-for-a-lock-owner-of-another-client"
   ELSE IF ctx = "replay" THEN "C19:retransmission-got-different-reply"
+  ELSE IF ctx = "laxretry" THEN
+         \* neither the cached reply nor BAD_SEQID (both were tried)
+         IF r.st = "OK" THEN "C19:request-with-the-seqid-of-the-cached-reply-executed-again"
+         ELSE "NC:status-of-retry-with-other-arguments"
   ELSE IF ctx = "falseretry" THEN
          IF r.st = "OK" \/ r \in CachedReps(sp, 0) THEN "C19:differing-request-answered-from-replay-cache"
          ELSE "NC:status-of-false-retry"
@@ -74,10 +100,14 @@ Classify(sp, req, m, ctx, r) ==
 DeniedOK(sp, req, d) ==
   LET e == Expire(sp)
       o == <<d.cid, d.lk>>
+      has(b) == o \in DOMAIN e.held[req.fh][b] /\ e.held[req.fh][b][o] = d.lt
   IN /\ req.fh \in DOMAIN e.held
-     /\ d.lt \in {"R", "W"} /\ 0 <= d.s /\ d.s < d.e /\ d.e <= NB
-     /\ \A b \in d.s .. (d.e - 1) : o \in DOMAIN e.held[req.fh][b] /\ e.held[req.fh][b][o] = d.lt
-     /\ \E b \in d.s .. (d.e - 1) : req.s <= b /\ b < RangeEnd(req)
+     /\ d.lt \in {"R", "W"} /\ 0 <= d.s /\ d.s < d.e /\ d.e <= NB + 1
+     \* (d.e = NB + 1: reported "through end of file"; a server that keeps
+     \* exclusive end offsets reports a lock that ends just before the last
+     \* byte that way too, so the last byte itself is not insisted on)
+     /\ \A b \in d.s .. (d.e - 1) : b = NB \/ has(b)
+     /\ \E b \in d.s .. (d.e - 1) : req.s <= b /\ b < RangeEnd(req) /\ has(b)
      /\ (d.lt = "W" \/ TableType(req.lt) = "W")
 
 \* The requester of a LOCK is the owner of the state id, not (cid, lk).
@@ -150,7 +180,11 @@ HookC20(st, h) ==
     THEN "C20:lock-count-differs-from-table-entries"
   ELSE IF \E e \in L : ~\E x \in lofs : x.cid = e.cid /\ x.lk = e.lk /\ x.f = e.f
     THEN "C20:table-entry-without-lock-owner-state"
-  ELSE IF \E p \in Range(h.pool) : p.f \in DOMAIN st.held /\ TableOf(L, p.f) # st.held[p.f]
+  \* (the last byte is not compared: a table with exclusive end offsets
+  \* cannot tell "up to the last byte" from "through the last byte"; what
+  \* happens to that byte is judged by the replies)
+  ELSE IF \E p \in Range(h.pool) : p.f \in DOMAIN st.held
+            /\ \E b \in 0 .. (NB - 1) : TableOf(L, p.f)[b] # st.held[p.f][b]
     THEN "C20:lock-table-differs-from-reference"
   ELSE "ok"
 
@@ -160,7 +194,7 @@ ModelConfs(st) == {[t |-> c, cl |-> st.conf[c].cl, cv |-> st.conf[c].cv, confirm
 ModelOos(st) == {[cid |-> k[1], ok |-> k[2], confirmed |-> st.oo[k].confirmed, lastseq |-> st.oo[k].lastseq,
                   hasresp |-> st.oo[k].resp.op # "none",
                   closedresp |-> st.oo[k].resp.op # "none" /\ st.oo[k].resp.closed # 0,
-                  files |-> Card(OofsOf(st, k)), unused |-> st.oo[k].unused >= 0, intxn |-> FALSE]
+                  files |-> Card(OofsOf(st, k)), unused |-> st.oo[k].unused >= 0, intxn |-> OpenOwnerBusy(st, k)]
                    : k \in DOMAIN st.oo}
 ModelOofs(st) == {[t |-> t, q |-> st.oofs[t].q, cid |-> st.oofs[t].c, ok |-> st.oofs[t].ok, f |-> st.oofs[t].f,
                    share |-> ShareWire(st.oofs[t].share), r |-> st.oofs[t].r, w |-> st.oofs[t].w]
@@ -193,14 +227,17 @@ HookEmpty(h) ==
 HookVisible(h) == [oofs |-> {x \in Range(h.oofs) : x.share # 0}, lofs |-> Range(h.lofs), locks |-> HookLocks(h)]
 
 -----------------------------------------------------------------------------
-(* One lock-owner with lock state on one file through two open-owners: the  *)
-(* protocol allows it, but which of the owner's bytes belong to which of    *)
-(* the two lock state ids is not defined once ranges merge, so the model    *)
-(* cannot prescribe what CLOSE or lease expiry of one of them releases (the *)
-(* pinned server panics in that situation, see TestFindings).  From the     *)
-(* moment it arises until the end of the history only the clauses that any  *)
-(* correct server satisfies are judged: no panic, no leaf closed more often *)
-(* than opened, nothing retained after all leases expired.                  *)
+(* One lock-owner with two lock states on one file (through two open-owners *)
+(* of its client): the server refuses to create the second one (BAD_SEQID,  *)
+(* the existing lock state id has to be used).  For a server that creates   *)
+(* it (field twin of the request, chosen from the reply), which of the      *)
+(* owner's bytes belong to which of the two lock state ids is not defined   *)
+(* once ranges merge, so the model cannot prescribe what CLOSE or lease     *)
+(* expiry of one of them releases (a server that counts locks per lock      *)
+(* state panics there, see TestFindings).  From the moment it arises until  *)
+(* the end of the history only the clauses that any correct server          *)
+(* satisfies are judged: no panic, no leaf closed more often than opened,   *)
+(* nothing retained after all leases expired.                               *)
 
 Ambiguous(st) ==
   \E x, y \in DOMAIN st.lofs :
@@ -222,11 +259,26 @@ First(vs) == IF \E i \in 1 .. Len(vs) : vs[i] # "ok"
 \* A request that was rejected because of its seqid, or answered from the
 \* replay cache, must not change anything the client can see (when the
 \* model says that no lease expired during the request).
-EffectsVerdict(sp, ctx, same, ln) ==
-  IF /\ ctx \in {"replay", "falseretry", "misordered"} /\ same
+\* The exactly-once machinery itself: sequence numbers and presence of a
+\* cached reply per owner, as observed / as the model has them.
+OwnerProj(h) ==
+  [oos |-> {[cid |-> x.cid, ok |-> x.ok, lastseq |-> x.lastseq, hasresp |-> x.hasresp, confirmed |-> x.confirmed] : x \in Range(h.oos)},
+   los |-> {[cid |-> x.cid, lk |-> x.lk, lastseq |-> x.lastseq, hasresp |-> x.hasresp] : x \in Range(h.los)}]
+ModelOwnerProj(st) ==
+  [oos |-> {[cid |-> x.cid, ok |-> x.ok, lastseq |-> x.lastseq, hasresp |-> x.hasresp, confirmed |-> x.confirmed] : x \in ModelOos(st)},
+   los |-> {[cid |-> x.cid, lk |-> x.lk, lastseq |-> x.lastseq, hasresp |-> x.hasresp] : x \in ModelLos(st)}]
+
+EffectsVerdict(sp, sn, ctx, same, ln) ==
+  IF /\ ctx \in {"replay", "falseretry", "misordered", "laxretry"} /\ same
      /\ Visible(Expire(sp)) = Visible(sp) /\ DOMAIN Expire(sp).conf = DOMAIN sp.conf
-     /\ (ln.leaf # obs.leaf \/ HookVisible(ln.hook) # HookVisible(obs.hook))
-  THEN "C19:rejected-or-replayed-request-had-effects" ELSE "ok"
+  THEN IF ln.leaf # obs.leaf \/ HookVisible(ln.hook) # HookVisible(obs.hook)
+       THEN "C19:rejected-or-replayed-request-had-effects"
+       \* ... nor may it advance a sequence number or drop / replace a cached
+       \* reply (when the model says that the request leaves them alone)
+       ELSE IF ModelOwnerProj(sn) = ModelOwnerProj(sp) /\ OwnerProj(ln.hook) # OwnerProj(obs.hook)
+       THEN "C19:rejected-or-replayed-request-changed-seqid-or-cached-reply"
+       ELSE "ok"
+  ELSE "ok"
 
 HashVerdict(ctx, ln) ==
   IF ctx = "replay" /\ Key(ln) \in DOMAIN seen /\ seen[Key(ln)] # ln.rep.h
@@ -260,37 +312,66 @@ TVanish ==
   /\ verdict' = "ok"
   /\ UNCHANGED <<s, last, nonconf, obs, seen>>
 
+\* The model's outcome of a completed request.  Where the properties leave
+\* the outcome open, the alternative that the real reply selects is followed:
+\* a request with the seqid and type of the cached reply but other arguments
+\* (cached reply or BAD_SEQID), a range that is the last byte alone (refused
+\* with whatever error the server gave, or treated like any other range).
+Outcome(st, r0, rep) ==
+  LET rej == RejOf(r0, rep)
+      \* a second lock state for a lock-owner on a file (through another open-owner)
+      \* is refused with BAD_SEQID; a server that creates it instead is followed
+      tw  == r0.op = "LOCK" /\ r0.newlo /\ rep.st = "OK"
+      oc  == Do(st, [Rq(r0, "cache", rej) EXCEPT !.twin = tw])
+      orj == Do(st, [Rq(r0, "reject", rej) EXCEPT !.twin = tw])
+  IN IF oc.ctx = "laxretry" /\ Proj(rep) # oc.rep /\ Proj(rep) = orj.rep THEN orj ELSE oc
+
 TOp ==
   /\ IsEvent("op")
-  /\ LET req == Line.req
-         o   == Do(s, req)
+  /\ LET req == Rq(Line.req, "cache", "")
+         blk == Blocked(s, req)
+         o   == IF blk THEN Res(s, BlankRep, "none") ELSE Outcome(s, Line.req, Line.rep)
          \* A replayed OPEN leaves the current file handle of the COMPOUND
          \* alone in the real server (a following GETFH does not see the
          \* opened file).  The OPEN result itself is what C19 speaks about,
          \* so unless StrictReplayFh is set this is tolerated.
-         lax == o.ctx = "replay" /\ req.op = "OPEN" /\ ~StrictReplayFh
+         lax == o.ctx \in {"replay", "laxretry"} /\ req.op = "OPEN" /\ ~StrictReplayFh
          ln  == IF lax THEN [Line EXCEPT !.rep.fh = o.rep.fh] ELSE Line
          r   == Proj(ln.rep)
          v1  == Classify(s, req, o.rep, o.ctx, r)
      IN /\ s' = o.s
         /\ verdict' = IF Amb THEN LeafNeg(Line.leaf)
+                       \* the open-owner has an OPEN in flight: the request has to wait for it
+                       ELSE IF blk THEN
+                              IF DupOfInFlight(s, req)
+                              THEN "C19:retransmission-of-in-flight-request-not-answered-with-its-result"
+                              ELSE "NC:request-completed-while-its-open-owner-has-a-request-in-flight"
                        ELSE First(<<v1, HashVerdict(o.ctx, ln), DeniedCheck(s, req, Line.rep),
-                                    EffectsVerdict(s, o.ctx, v1 = "ok", Line),
+                                    EffectsVerdict(s, o.s, o.ctx, v1 = "ok", Line),
                                     LeafVerdict(o.s, Line.leaf), HookC20(o.s, Line.hook)>>)
         /\ Observe(o.s, Line) /\ Remember(Line)
         /\ MarkAmb(o.s)
 
+\* A request that is in flight: READ/WRITE/SETATTR held inside the leaf, or
+\* an OPEN held while it opens the file (its open-owner transaction has
+\* started).
 TIOStart ==
   /\ IsEvent("iostart")
-  /\ LET req == Line.req
+  /\ LET req == Rq(Line.req, "cache", "")
          a   == IF req.fh > 0 /\ ~(req.fh \in DOMAIN s.leaf /\ Resolves(s, req.fh))
                 THEN [s |-> s, rep |-> PreErr("STALE"), io |-> [kind |-> "fail"]]
+                ELSE IF req.op = "OPEN" THEN (IF Blocked(s, req) THEN [s |-> s, rep |-> BlankRep, io |-> [kind |-> "fail"]]
+                                              ELSE OpenStart(s, req))
                 ELSE IOStart(s, req)
-         ok  == req.op \in {"READ", "WRITE", "SETATTR"} /\ a.io.kind # "fail"
+         ok  == req.op \in {"READ", "WRITE", "SETATTR", "OPEN"} /\ a.io.kind # "fail"
          s1  == IF ok THEN [a.s EXCEPT !.io = Put(@, Line.id, a.io)] ELSE s
      IN /\ s' = s1
         /\ verdict' = IF Amb THEN LeafNeg(Line.leaf)
-                       ELSE First(<<IF ok THEN "ok"
+                       ELSE First(<<IF ok THEN
+                                       \* (an OPEN that re-initialises an unconfirmed open-owner with open
+                                       \* files closes them only when it returns; the drivers never hold one)
+                                       IF req.op = "OPEN" /\ a.s.leaf # Expire(s).leaf
+                                       THEN "NC:in-flight-open-reinitialises-its-open-owner" ELSE "ok"
                                     ELSE IF req.op \in {"READ", "WRITE", "SETATTR"} /\ a.rep.st \in SidErrors
                                          THEN "C18:state-id-honoured-wrongly"
                                     ELSE "NC:request-in-flight-that-the-model-rejects",
@@ -301,19 +382,53 @@ TIOStart ==
 TIOEnd ==
   /\ IsEvent("ioend")
   /\ LET known == Line.id \in DOMAIN s.io
-         s1 == IF known THEN [IOEnd(s, s.io[Line.id]) EXCEPT !.io = Del(@, {Line.id})] ELSE s
+         isopen == known /\ s.io[Line.id].kind = "open"
+         oe == IF isopen THEN OpenEnd(s, s.io[Line.id]) ELSE [s |-> s, rep |-> OkRep]
+         s1 == IF isopen THEN [oe.s EXCEPT !.io = Del(@, {Line.id})]
+               ELSE IF known THEN [IOEnd(s, s.io[Line.id]) EXCEPT !.io = Del(@, {Line.id})] ELSE s
          r  == Proj(Line.rep)
          \* a SETATTR without state id that was held inside a leaf which lost
          \* its last reference meanwhile fails (see harness/nfs40/fixture_test.go)
-         m  == IF known /\ s.io[Line.id].kind = "plain" /\ s.io[Line.id].f > 0 /\ ~LeafAlive(s, s.io[Line.id].f)
+         m  == IF isopen THEN oe.rep
+               ELSE IF known /\ s.io[Line.id].kind = "plain" /\ s.io[Line.id].f > 0 /\ ~LeafAlive(s, s.io[Line.id].f)
                THEN Err("STALE") ELSE OkRep
      IN /\ s' = s1
         /\ verdict' = IF Amb THEN LeafNeg(Line.leaf)
                        ELSE First(<<IF ~known THEN "NC:completion-of-unknown-request"
+                                    ELSE IF isopen THEN Classify(s, s.io[Line.id].req, m, "new", r)
                                     ELSE IF r # m THEN "NC:reply-differs" ELSE "ok",
                                     LeafVerdict(s1, Line.leaf), HookC20(s1, Line.hook)>>)
         /\ Observe(s1, Line) /\ Remember(Line)
-  /\ UNCHANGED last
+        /\ IF isopen THEN MarkAmb(s1) ELSE UNCHANGED last
+
+\* A request that waits for the OPEN that its open-owner has in flight: it
+\* has done nothing yet except entering the server (which expires leases).
+TBlocked ==
+  /\ IsEvent("blocked")
+  /\ LET req == Rq(Line.req, "cache", "")
+         s1  == Expire(s)
+     IN /\ s' = s1
+        /\ verdict' = IF Amb THEN LeafNeg(Line.leaf)
+                       ELSE First(<<IF Blocked(s, req) THEN "ok" ELSE "NC:request-waits-that-the-model-completes",
+                                    IF Visible(s1) = Visible(s) /\ DOMAIN s1.conf = DOMAIN s.conf
+                                       /\ (Line.leaf # obs.leaf \/ HookVisible(Line.hook) # HookVisible(obs.hook)
+                                            \/ OwnerProj(Line.hook) # OwnerProj(obs.hook))
+                                    THEN "C19:request-waiting-for-an-in-flight-request-had-effects" ELSE "ok",
+                                    LeafVerdict(s1, Line.leaf), HookC20(s1, Line.hook)>>)
+        /\ Observe(s1, Line)
+  /\ UNCHANGED <<last, seen>>
+
+\* A request that waited for an in-flight OPEN and is still parked although
+\* that OPEN has completed.
+THang ==
+  /\ IsEvent("hang")
+  /\ LET req == Rq(Line.req, "cache", "")
+         k   == <<req.cid, req.ok>>
+         \* the OPEN it waited for has completed and is the open-owner's cached request
+         dup == req.op = "OPEN" /\ k \in DOMAIN s.oo /\ s.oo[k].resp.op # "none" /\ SameReq(s.oo[k].resp.req, req)
+     IN verdict' = IF dup THEN "C19:retransmission-of-in-flight-request-never-completes"
+                   ELSE "NC:request-waiting-for-a-completed-request-never-completes"
+  /\ UNCHANGED <<s, last, nonconf, obs, seen>>
 
 \* End of a history: every lease has expired and one more request ran.
 TFinal ==
@@ -331,7 +446,7 @@ TPanic ==
                 ELSE "C18:server-panic-in-state-accounting"
   /\ UNCHANGED <<s, last, nonconf, obs, seen>>
 
-TNext == TReset \/ TTick \/ TVanish \/ TOp \/ TIOStart \/ TIOEnd \/ TFinal \/ TPanic
+TNext == TReset \/ TTick \/ TVanish \/ TOp \/ TIOStart \/ TIOEnd \/ TBlocked \/ THang \/ TFinal \/ TPanic
 
 TraceSpec == TInit /\ [][TNext]_tvars
 
